@@ -49,3 +49,24 @@ refactor("c08-tiers-without-macro",
          [(G, "pub ExprPrecedence3 = ExprTier<ExprOp3, ExprPrecedence4>;",
               "pub ExprPrecedence3: RawExpr = {\n    <l_loc:@L> <l:ExprPrecedence3> <op_loc:@L> <op:ExprOp3> <r_loc:@L> <r:ExprPrecedence4> =>\n        RawExpr::BinaryOp{op, op_loc, lhs: Box::new((l, l_loc)), rhs: Box::new((r, r_loc))},\n    ExprPrecedence4\n};")],
          note="additive tier written out without the ExprTier macro")
+
+# ---- C09 ---------------------------------------------------------------------
+mutant("c09-drop-mod-from-continuations",
+       [(L, "                    Token::Mod |\n", "")],
+       [("C09", "R09.1")])
+mutant("c09-add-dotdot-to-continuations",
+       [(L, "                    Token::Dot |\n", "                    Token::Dot |\n                    Token::DotDot |\n")],
+       [("C09", "R09.1")])
+mutant("c09-cr-is-terminator",
+       [(L, "            if c == '\\n' || c == ';' {\n                self.scanner.next_char();",
+            "            if c == '\\n' || c == ';' || c == '\\r' {\n                self.scanner.next_char();"),
+        (L, "                if c == '\\n' || !c.is_ascii_whitespace() {", "                if c == '\\n' || c == '\\r' || !c.is_ascii_whitespace() {")],
+       [("C09", "R09.2")])
+mutant("c09-block-last-stmt-without-terminator",
+       [(G, 'pub Block: Block = {\n    "{" <stmts:Stmt*> "}" => stmts,\n}',
+            'pub Block: Block = {\n    "{" <stmts:Stmt*> "}" => stmts,\n    "{" <mut stmts:Stmt*> <last:RawStmt> "}" => { stmts.push(last); stmts },\n}')],
+       [("C09", "R09.3")], note="may be rejected by LALRPOP as ambiguous")
+refactor("c09-continuation-list-as-matches",
+         [(L, "            if let Some(t) = last_token {\n                match t {",
+              "            if let Some(t) = last_token {\n                #[allow(clippy::match_like_matches_macro)]\n                match t {")],
+         note="attribute only")
